@@ -14,7 +14,7 @@ class C10(F.PropCheck):
     pid = 'C10'; gen_groups = ['RsConsts']; prop_file = 'Properties_C10'
     IN = {'CFG': 0, 'CB': 1, 'TASK': 2, 'RELAY': 3, 'RECAL': 4}
     OUT = {0: 'ST', 1: 'REPORT', 2: 'GPIO'}
-    quick_cases = 700; thorough_cases = 1000            # thorough: 1000 cases through the framework + batches (extra_quick)
+    quick_cases = 600; thorough_cases = 1000            # thorough: 1000 cases through the framework + batches (extra_quick)
     thorough_batches = 22; batch_size = 500
     trusted_extra = ['C10 driver harness/drv/c10.c: real supla_esp_gpio_init, relay_hi, rs_set_relay + delayed-trigger os_timer (fired by the timer double), '
                      'add_task, rs_timer_cb (task processing, auto-calibration, 10-minute rule), supla_esp_calcfg_request; timer callback called directly '
@@ -261,7 +261,7 @@ class C10(F.PropCheck):
         C09MOD.run_batches(self, ctx, makers, 'batched_thorough')
 
     def gen_cases(self, rng, n, tier, prefix=''):
-        fams = [(self.fam_task_rs, 30), (self.fam_task_asym, 6), (self.fam_resend, 2), (self.fam_manual, 12), (self.fam_ten_minutes, 3), (self.fam_autocal, 12), (self.fam_autocal_stuck, 2), (self.fam_autocal_pause_cmd, 5), (self.fam_fb_retask, 8), (self.fam_interrupt, 12),
+        fams = [(self.fam_task_rs, 30), (self.fam_task_asym, 6), (self.fam_resend, 2), (self.fam_manual, 12), (self.fam_ten_minutes, 3), (self.fam_autocal, 12), (self.fam_autocal_stuck, 2), (self.fam_autocal_pause_cmd, 3), (self.fam_fb_retask, 5), (self.fam_interrupt, 12),
                 (self.fam_fb, 10), (self.fam_random, 21)]
         tot = sum(w for _, w in fams); cases = []
         for i in range(n):
